@@ -625,6 +625,10 @@ impl Engine for ObjEngine {
     fn exec(&self, plan: &Plan, ctx: &mut RunCtx) -> VResult {
         let npool = plan.cfg("pool", 4).clamp(1, 8) as usize;
         let no_borrowed = plan.cfg("no_borrowed", 0) == 1;
+        if focus() == "casts" && crate::plugin::plugin_path().is_none() {
+            simcore::alloc::untracked(|| crate::layout::opaque_identity(plan.steps.len() as u64))?;
+            ctx.count("probe.opaque_identity_checked");
+        }
         let world = World::new();
         let mut plugin = None;
         let mut lib = None;
